@@ -1,0 +1,14 @@
+//go:build verif
+
+package mocrelay
+
+// VerifSubscriptionCount returns the number of live subscriptions and of
+// connections that have a registry entry, read under the registry's own locks.
+// For the verification harness only (build tag verif).
+func (router *RouterHandler) VerifSubscriptionCount() (subscriptions, connections int) {
+	router.subs.subs.Loop(func(_ string, m *safeMap[string, *subscriber]) {
+		connections++
+		m.Loop(func(_ string, _ *subscriber) { subscriptions++ })
+	})
+	return
+}
